@@ -120,6 +120,7 @@ class Program:
         self.globals = {}
         self.typedefs = {}
         self.unit_of = {}
+        self.copies = {}        # (sig, unit) -> Function: the copy of an inline/header function as seen by that unit (same decl ids as its callers there)
         for src, _ in units:
             rel = os.path.relpath(src, REPO)
             if only is not None and rel not in only:
@@ -130,6 +131,7 @@ class Program:
             for f in d["functions"]:
                 f = Function(f)
                 f["unit"] = rel
+                self.copies[(f["sig"], rel)] = f
                 if f["sig"] not in self.functions:
                     self.functions[f["sig"]] = f
                     self.by_qname.setdefault(f["qname"], []).append(f)
@@ -184,6 +186,8 @@ class Program:
 def load_program(only=None, defines=(), tag="default"):
     fdir, units = extract(defines, tag)
     prog = Program(fdir, units, only)
+    from . import indexmap
+    indexmap.PROGRAM = prog
     # main's locals are addressed by role, not by the name they happen to have (see roles.py)
     if "main" in prog.by_qname:
         from . import roles
